@@ -672,7 +672,7 @@ func descOf(e *c18Bundle) string {
 
 func init() {
 	register(&mc.Check{
-		ID: "C18", Title: "The CRL fetcher never serves stale data and never hides a failed download", DesignRef: "DESIGN.md §4 C18",
+		ID: "C18", Extra: clockPass("C18", "C18T"), Title: "The CRL fetcher never serves stale data and never hides a failed download", DesignRef: "DESIGN.md §4 C18",
 		Rule: fmt.Sprintf("Engine E3: every history up to depth 4 (quick) / 5 (thorough; 4 for the malformed, don't-care, cache-less and three-location configurations) over %d events {fetch, server publishes newer CRLs, cache entry := fresh / fresh with delta / base expired / delta expired / both expired / base without nextUpdate / empty, next cache Get fails, next cache Set fails, "+
 			"next base download fails (transport, 404, garbage), next delta download fails at location 0 / 1 / all} x {no cache, cache, cache + DiscardCacheError} x %d freshest-CRL shapes of the base CRL (absent, 1-3 URLs, non-URI names, empty sequence, https, malformed DER at three depths), real HTTPFetcher over a scripted transport and cache; "+
 			"each fetch is judged from the request and cache-operation log against the statement and against a reference model of the fetcher; 32 MiB bodies in a separate scenario.", len(c18Events), len(c18Shapes)),
